@@ -8,24 +8,44 @@ TRUSTED = [
     "hand-written model props/C15/coq/Model.v: file set of one fraction, operation programs of NewActive / Seal+Release / "
     "Active.Suicide / Sealed.Suicide / removeFractionFiles, loader classification, shrinkSizes, NewSealed fast path "
     "(tied to /repo by the correspondence run, not verified code)",
+    "hand-written models of the extension: ModelPar.v (the whole directory: one deletion goroutine per outsider of a retention pass, "
+    "scheduler choices, crash after any operation of any goroutine, interruptible loader; each fraction is a Model.st), ModelUse.v "
+    "(use lock of a fraction: RLock / flag check / provider release of readers against Lock, set flag, Unlock, renames and removals of "
+    "Suicide), ModelPL.v (.frac-cache save as create-temp / write / rename WITHOUT any fsync, power loss = lost not-yet-synced renames "
+    "+ every file cut to any length; .del renames and removals without directory sync) - tied to /repo by the classes par:*, use:*, "
+    "cache:save-ops, cache:powerloss",
     "crash model: process crash after any single create/rename/unlink (harness/internal/crashfs rebuilds the directory from the strace log); "
-    "file contents are atomic at the rename (fsync before rename is visible in the log but not modelled)",
+    "operations of different fractions are independent, so a re-ordering of the traced log that keeps every fraction's own order is a "
+    "schedule the real process could have run; power loss: directory operations reach the disk in issue order (journalled metadata), file "
+    "data only up to the last fsync (crashfs PowerLoss); without the ordering assumption the .del protocol is NOT safe "
+    "(C15_del_powerloss_unordered_refuted: a lone .sdocs, loader Fatal)",
     "Go harness harness/cmd/hC15 + storectl (real FracManager in child processes) + strace",
-    "JSON parsing of .frac-cache: the harness parses each variant with encoding/json (the library the store uses) and hands the entries to the model",
+    "JSON parsing of .frac-cache: the harness parses each variant and each power-loss cut with encoding/json (the library the store uses) "
+    "and hands the entries / the verdict 'accepted' to the model; the model's rule 'a proper prefix of the saved text is rejected as a whole' "
+    "is compared with that verdict in every cache:powerloss case",
 ]
 ASSUME = [
-    "one fraction's files are only touched by that fraction's own life-cycle steps (fractions are independent on disk)",
-    "Release runs to completion before a retention pass deletes the freshly sealed fraction (the Release/Sealed.Suicide overlap inside one process is not modelled)",
+    "one fraction's files are only touched by that fraction's own life-cycle steps (fractions are independent on disk; made explicit by ModelPar.v: "
+    "a directory event changes exactly one component)",
+    "the manager's list is in creation order when a retention pass runs (seals finish in creation order; otherwise the restart lists a younger "
+    "sealed fraction before an older unsealed one: C15_load_order_unordered_refuted)",
     "sizes reported by Info do not change during one retention pass",
     "KeepMetaFile = false (as cmd/seq-db sets it); power loss inside docs/meta writes is property C01's subject",
-    "seals finish in creation order (otherwise the restart lists a younger sealed fraction before an older unsealed one: C15_load_order_unordered_refuted)",
+    "a reader uses a fraction only through Fraction.DataProvider and calls the release function it got (searcher/fetcher do)",
+    "file system persists create/rename/unlink in issue order across a power loss (no directory fsync follows the .del renames, the removals "
+    "or the .frac-cache rename; the data directory is fsynced only by NewActive and Seal)",
 ]
 RULE = ("generated histories of bulk / rotate+seal / rotate / retention pass / cache save on a real FracManager under strace, with and "
         "without sorted docs; a restart in a fresh process on EVERY crash point before a create/rename/unlink; selected crash states "
         "(all inside the first seal, random ones inside seals, rotations and retention passes) continued by a second traced history "
         "(restart, rotate, retention, seal) whose crash points are restarted too; all 2^7 file sets of one fraction from real files; "
-        ".frac-cache absent/stale/truncated/garbage/tampered. non-trivial = some fraction is in an intermediate file set / the window "
-        "has more than one operation / the pass removed some but not all fractions; distinct by input")
+        ".frac-cache absent/stale/truncated/garbage/tampered; retention passes over 2-4 outsiders (sealed, and an unsealed rotated one): the "
+        "interleaved log of the real goroutines against the model's programs, a restart on every crash point of the observed interleaving and "
+        "of re-orderings (oldest-first, newest-first, round-robin, seeded random merges) rebuilt with crashfs; readers holding data providers "
+        "of the oldest fraction (sealed in process, sealed and loaded, unsealed) while the real pass deletes it; every operation boundary of "
+        "every .frac-cache save with the cache file cut to 0 / 1 / half / all-but-one / all bytes. non-trivial = some fraction is in an "
+        "intermediate file set / the window has more than one operation / the pass removed some but not all fractions / the crash lies strictly "
+        "inside a pass / a provider is out when the deletion is requested / the cache file is really cut; distinct by input")
 
 
 def harness_args(tier, seed, outdir):
